@@ -288,6 +288,10 @@ func genHistory(h *Hist, r *lib.Rand, avoid bool) {
 			if vs := g.delegatedVals(a); len(vs) > 0 {
 				v := vs[r.Intn(len(vs))]
 				g.undelegate(a, v, false)
+				if r.Chance(35) { // the same delegator again in the same block: two pairs of it in one slice
+					w := vs[r.Intn(len(vs))]
+					g.undelegate(a, w, false)
+				}
 				if r.Chance(50) { // another delegator unbonds in the same block: shared completion time
 					o := g.pickOth()
 					if r.Chance(50) {
@@ -302,6 +306,9 @@ func genHistory(h *Hist, r *lib.Rand, avoid bool) {
 			a := g.pickSrc()
 			if vs := g.delegatedVals(a); len(vs) > 0 {
 				g.redelegate(a, vs[r.Intn(len(vs))], g.pickVal())
+				if r.Chance(35) {
+					g.redelegate(a, vs[r.Intn(len(vs))], g.pickVal())
+				}
 				if r.Chance(50) {
 					o := g.pickOth()
 					if ws := g.delegatedVals(o); len(ws) > 0 {
@@ -437,4 +444,158 @@ func runWitnesses(seed int64, cw *CaseWriter, rep *lib.Report) {
 	h.Exec(Op{Kind: "block", Dt: 21 * day})
 	h.Exec(Op{Kind: "block", Dt: 5 * sec})
 	rep.Case("witness-index", true)
+}
+
+
+// ---------- scenario families: every refusal rule and every cell of the governance window, each run ----------
+
+func (h *Hist) setupBasic() {
+	for i := 0; i < nSrc; i++ {
+		h.Exec(Op{Kind: "acct", A: i})
+		h.Exec(Op{Kind: "mint", A: i, Denom: "FX", Amt: fx(60000)})
+		h.Exec(Op{Kind: "mint", A: i, Denom: otherDenoms[i%3], Amt: fmt.Sprint(1000 + i)})
+	}
+	for i := tgt0; i <= ethVal; i++ {
+		h.Exec(Op{Kind: "mint", A: i, Denom: "FX", Amt: fx(60000)})
+	}
+	h.Exec(Op{Kind: "mint", A: noPub, Denom: "FX", Amt: fx(10)})
+	h.Exec(Op{Kind: "block", Dt: 5 * sec})
+}
+
+func mig(a, b int, mode string) Op {
+	return Op{Kind: "migrate", A: a, B: b, Mode: mode, Sig: "ok", Signer: b, SF: a, ST: b}
+}
+
+// runRuleScenarios: one attempt per refusal rule, in the transaction form and (where the signature
+// rule would hide it) through the msg server alone; then the same migrations without the obstacle.
+func runRuleScenarios(seed int64, cw *CaseWriter, rep *lib.Report, r *lib.Rand) {
+	h := NewHist(seed*1000+910, cw, rep)
+	h.setupBasic()
+	h.Exec(Op{Kind: "createval", A: ethVal, Amt: fx(1)})
+	v0, v1 := val0, val0+1+r.Intn(2)
+	// source 0: delegation + unbonding + redelegation; target tgt0+1 delegates; tgt0+2 only unbonds; tgt0+3 only redelegation
+	h.Exec(Op{Kind: "delegate", A: 0, V: v0, Amt: fx(3000)})
+	h.Exec(Op{Kind: "delegate", A: 1, V: v0, Amt: fx(2000)})
+	h.Exec(Op{Kind: "delegate", A: tgt0 + 1, V: v0, Amt: fx(100)})
+	h.Exec(Op{Kind: "delegate", A: tgt0 + 2, V: v0, Amt: fx(100)})
+	h.Exec(Op{Kind: "delegate", A: tgt0 + 3, V: v0, Amt: fx(100)})
+	h.Exec(Op{Kind: "block", Dt: 5 * sec})
+	h.Exec(Op{Kind: "undelegate", A: 0, V: v0, Amt: fx(500)})
+	h.Exec(Op{Kind: "redelegate", A: 0, V: v0, W: v1, Amt: fx(400)})
+	h.Exec(Op{Kind: "undelegate", A: tgt0 + 2, V: v0, Amt: fx(100)}) // everything: only the unbonding record remains
+	h.Exec(Op{Kind: "redelegate", A: tgt0 + 3, V: v0, W: v1, Amt: fx(100)})
+	h.Exec(Op{Kind: "block", Dt: 5 * sec})
+	h.Exec(Op{Kind: "undelegate", A: tgt0 + 3, V: v1, Amt: fx(100)}) // leaves redelegation + unbonding, no delegation
+	h.Exec(Op{Kind: "block", Dt: 5 * sec})
+	for _, mode := range []string{"tx", "srv"} {
+		h.Exec(mig(val0, tgt0, mode))         // source is a validator operator
+		h.Exec(mig(0, ethVal, mode))          // target is a validator operator (eth key: the signature is valid)
+		h.Exec(mig(0, tgt0+1, mode))          // target has a delegation
+		h.Exec(mig(0, tgt0+2, mode))          // target has only an unbonding delegation
+		h.Exec(mig(0, tgt0+3, mode))          // target has redelegation/unbonding records
+		h.Exec(mig(noPub, tgt0, mode))        // account without public key
+		h.Exec(mig(oth0, tgt0, mode))         // eth_secp256k1 account / no account
+		h.Exec(mig(0, 0, mode))               // onto itself
+	}
+	h.Exec(mig(0, val0+1, "srv")) // target validator operator with a cosmos key: only the msg server can be asked
+	// signature rule
+	h.Exec(Op{Kind: "migrate", A: 0, B: tgt0, Mode: "tx", Sig: "other", Signer: tgt0 + 1, SF: 0, ST: tgt0})
+	h.Exec(Op{Kind: "migrate", A: 0, B: tgt0, Mode: "tx", Sig: "swap", Signer: tgt0, SF: 1, ST: tgt0})
+	h.Exec(Op{Kind: "migrate", A: 0, B: tgt0, Mode: "tx", Sig: "swap", Signer: tgt0, SF: 0, ST: tgt0 + 1})
+	h.Exec(Op{Kind: "migrate", A: 0, B: tgt0, Mode: "tx", Sig: "empty"})
+	h.Exec(Op{Kind: "migrate", A: 0, B: tgt0, Mode: "tx", Sig: "garbage"})
+	h.Exec(Op{Kind: "migrate", A: 0, B: tgt0, Mode: "tx", Sig: "other", Signer: 1, SF: 0, ST: tgt0}) // the source's colleague signs
+	// the real thing
+	h.Exec(mig(0, tgt0, "tx"))
+	h.Exec(Op{Kind: "block", Dt: 5 * sec})
+	// once
+	for _, mode := range []string{"tx", "srv"} {
+		h.Exec(mig(0, oth0, mode))    // source again
+		h.Exec(mig(1, tgt0, mode))    // target again
+		h.Exec(mig(tgt0, oth0, mode)) // the former target as source
+		h.Exec(mig(1, 0, mode))       // the former source as target
+	}
+	h.Exec(mig(1, oth0, "tx")) // an unrelated pair still works
+	h.Exec(Op{Kind: "withdraw", A: tgt0, V: v0, Mode: "must"})
+	h.Exec(Op{Kind: "undelegate", A: tgt0, V: v0, Amt: fx(700), Mode: "must"})
+	h.Exec(Op{Kind: "slash", V: v0, Dt: 1})
+	h.Exec(Op{Kind: "block", Dt: 21 * day})
+	h.Exec(Op{Kind: "block", Dt: 5 * sec})
+	rep.Case("scenario-rules", true)
+}
+
+// runGovWindow: for each role x side x queue, a proposal whose end time falls inside / at the edges of /
+// outside the window (previous block time, transaction time] in which the scan can see it.
+func runGovWindow(seed int64, cw *CaseWriter, rep *lib.Report, r *lib.Rand) {
+	type cell struct {
+		role string // proposer | depositor | voter
+		side string // from | to
+		act  bool   // voting period (active queue) or deposit period (inactive queue)
+	}
+	var cells []cell
+	for _, act := range []bool{false, true} {
+		for _, side := range []string{"from", "to"} {
+			for _, role := range []string{"proposer", "depositor", "voter"} {
+				if role == "voter" && !act {
+					continue
+				}
+				cells = append(cells, cell{role, side, act})
+			}
+		}
+	}
+	for ci, c := range cells {
+		h := NewHist(seed*1000+920+int64(ci), cw, rep)
+		h.setupBasic()
+		h.Exec(Op{Kind: "delegate", A: 0, V: val0, Amt: fx(1000)})
+		h.Exec(Op{Kind: "block", Dt: 5 * sec})
+		who := 0
+		if c.side == "to" {
+			who = tgt0
+		}
+		proposer := oth0
+		if c.role == "proposer" {
+			proposer = who
+		}
+		amount := int64(1000)
+		if c.act {
+			amount = 10000
+		}
+		pid := uint64(h.snap().NextPid)
+		h.Exec(Op{Kind: "submit", A: proposer, Amt: fx(amount)})
+		switch c.role {
+		case "depositor":
+			h.Exec(Op{Kind: "deposit", A: who, Pid: pid, Amt: fx(200)})
+		case "voter":
+			h.Exec(Op{Kind: "vote", A: who, Pid: pid})
+		}
+		// the end time of the proposal's current period
+		var end int64
+		for _, p := range h.snap().Props {
+			if p.ID == int64(pid) {
+				end = p.DepEnd
+				if c.act {
+					end = p.VoteEnd
+				}
+			}
+		}
+		// well inside the period: not seen (the finding)
+		h.Exec(Op{Kind: "block", Dt: 3 * day})
+		h.Exec(mig(1, tgt0+1, "tx")) // an uninvolved pair, for contrast
+		// place the transaction time relative to the end time
+		offsets := []int64{-1, 0, 1, 2 * sec, 5*sec - 1, 5 * sec} // tx time - end
+		off := offsets[(ci+int(seed))%len(offsets)]
+		if r.Chance(30) {
+			off = offsets[r.Intn(len(offsets))]
+		}
+		// tx time = block time + 5s  =>  block time = end + off - 5s
+		now := ns(h.c.Time)
+		h.Exec(Op{Kind: "block", Dt: end + off - 5*sec - now})
+		h.Exec(mig(0, tgt0, "tx"))
+		h.Exec(Op{Kind: "block", Dt: 5 * sec})
+		h.Exec(mig(0, tgt0, "tx")) // after the end blocker has closed it (or again)
+		h.Exec(Op{Kind: "block", Dt: 15 * day})
+		h.Exec(Op{Kind: "block", Dt: 5 * sec})
+		rep.Count(fmt.Sprintf("gov-window:%s:%s:active=%v:offset=%d", c.role, c.side, c.act, off))
+		rep.Case(fmt.Sprintf("scenario-govwindow-%d", ci), true)
+	}
 }
